@@ -57,7 +57,7 @@ def _binding(draw, k):
 
 @st.composite
 def cases(draw, cpus, skip_rr, skip_file):
-    nmask = draw(st.sampled_from([1, 2, 2, 3, 4, 4, 6, 8, 12, 16]))
+    nmask = draw(st.sampled_from([1, 2, 2, 3, 3, 4, 4, 4, 5, 6, 6, 8, 8, 10, 12, 16]))
     nmask = min(nmask, len(cpus))
     mask = sorted(draw(st.permutations(cpus))[:nmask])
     k = len(mask)
@@ -178,7 +178,7 @@ def classify(case):
 
 # ------------------------------------------------------------------------------------------------ execution
 
-def run_case(case, driver, d, base_env, skip_total_check=False, timeout=180):
+def run_case(case, driver, d, base_env, skip_total_check=False, timeout=300):
     """-> (error or None, labels, inconclusive)."""
     os.makedirs(d, exist_ok=True)
     spec = case.get("spec")
